@@ -72,10 +72,7 @@ class MapGen:
         self.force_quiet = False
 
     def reachable_weapons(self):
-        from richchk.model.richchk.unis.unit_id import UnitId
-        from richchk.model.richchk.unis.unit_to_weapon_lookup import get_weapons_for_unit
-
-        return {w.id for u in UnitId for w in get_weapons_for_unit(u)}
+        return refchk.REACHABLE_WEAPONS
 
     # ------------------------------------------------------------------ strings
     def text(self):
